@@ -3,7 +3,8 @@
 ids 0..10 are harness/fnlib.py's polynomial functions (same ids), 11..15 conditionals in return
 position and a division by a constant, 16..18 functions that fn_to_sympy refuses (before and after
 the proposed C06 repairs), 19..27 functions with LOCAL ASSIGNMENTS whose names are reassigned
-inside a branch and read after it (TRANSLATABLE is an explicit set: ids stay stable).  coq/codegen/CgInst.v (fsemQ / translatesQ) mirrors this table: keep ids stable.
+inside a branch and read after it (TRANSLATABLE is an explicit set: ids stay stable), 28..37 functions
+that fn_to_sympy must refuse BY ARITY (a call relying on a default value, a keyword-only parameter, *args).  coq/codegen/CgInst.v (fsemQ / translatesQ) mirrors this table: keep ids stable.
 Every function is exact on small dyadic rationals in binary64."""
 
 from __future__ import annotations
@@ -148,22 +149,119 @@ def h_after(a, b):
     return r
 
 
+# ---- untranslatable BY ARITY (ids 28..37) -----------------------------------------------------
+# fn_to_sympy binds a function's positional parameter names (ast `args.args`) to the call's
+# arguments with zip(..., strict=True): it has no notion of default values, keyword-only parameters
+# or *args.  A call that relies on any of them must be REFUSED (generation raises): an unsupplied
+# parameter left behind in the expression is a bare symbol that reads whatever model component has
+# that name -- the helpers' defaulted parameters are therefore called like model names (n0011) or
+# like a parameter of the calling function (g).  The helpers k_* are not table entries (found by
+# fn_to_sympy through the module); Python evaluates every function here without complaint.
+
+
+def k_scale(s, n0011=2.0):
+    return s * n0011
+
+
+def u_default_helper(a):
+    return k_scale(a)
+
+
+def k_gain(s, g=2.0):
+    return s * g
+
+
+def u_default_inner(a, g):
+    return k_gain(a) - g
+
+
+def k_lin(s, b=1.0, n0011=0.5):
+    return s * b + n0011
+
+
+def u_default_mid(a, c):
+    return k_lin(a, c)
+
+
+def u_default_top(a, n0011=2.0):  # as a computed coefficient over ONE argument (Model checks the arity of rates/derived)
+    return a * n0011
+
+
+def u_kwonly(a, *, n0011=2.0):
+    return a * n0011
+
+
+def k_kw(s, *, n0011=2.0):
+    return s * n0011
+
+
+def u_kwhelper(a):
+    return k_kw(a)
+
+
+def u_star(a, *rest):
+    return a * 2.0
+
+
+def k_star(s, *rest):
+    return s * 2.0
+
+
+def u_starhelper(a, b):
+    return k_star(a, b)
+
+
+# EMPTY argument lists: every parameter has a default and the call passes nothing
+def k_two(n0011=2.0):
+    return n0011 * 3.0
+
+
+def u_empty_helper(a):
+    return a * k_two()
+
+
+def u_empty_top(n0011=2.0):  # as a computed coefficient over NO argument
+    return n0011 * 3.0
+
+
 FNS = [
     f_id, f_neg, f_add, f_sub, f_mul, f_lin, f_sq, f_poly2, f_two, f_ma2, f_sum3,
     g_max2, g_abs, g_relu, g_half, g_clamp,
     u_subscript, u_boolop, u_lambda,
     h_cap, h_default, h_nested, h_swap, h_elif, h_step, h_else_reads, h_else_assigns, h_after,
+    u_default_helper, u_default_inner, u_default_mid, u_default_top, u_kwonly, u_kwhelper, u_star, u_starhelper,
+    u_empty_helper, u_empty_top,
 ]  # fmt: skip
-ARITY = [1, 1, 2, 2, 2, 3, 1, 2, 0, 3, 3, 2, 1, 2, 1, 3, 1, 2, 1, 2, 2, 3, 2, 2, 1, 3, 2, 2]
+# number of arguments the MODEL passes (for 28..37 not the number of parameters)
+ARITY = [1, 1, 2, 2, 2, 3, 1, 2, 0, 3, 3, 2, 1, 2, 1, 3, 1, 2, 1, 2, 2, 3, 2, 2, 1, 3, 2, 2,
+         1, 2, 2, 1, 1, 1, 2, 2, 1, 0]
 # ids are positions in FNS and never change; new functions are appended
 TRANSLATABLE = frozenset(range(16)) | frozenset(range(19, 28))
 CONDITIONAL = {11, 12, 13, 15, 19, 20, 21, 22, 23, 24, 25, 26, 27}
 LOCAL_ASSIGNMENT = {19, 20, 21, 22, 23, 24, 25, 26, 27}
+# refused because the call relies on a default value / a keyword-only parameter / *args
+BY_ARITY_REFUSED = frozenset(range(28, 38))
+# Model itself rejects these as the function of a rate or of a derived quantity (ArityMismatchError):
+# usable as a computed coefficient only
+COEF_ONLY = frozenset({31, 37})
+# refused by a KeyError out of fn_to_sympy's global-name lookup (a keyword-only parameter is no
+# entry of the symbol table): for a derived quantity / a coefficient the KeyError itself leaves
+# generate_model_code_*, for a reaction it is turned into the ValueError
+KEYERROR_REFUSED = frozenset({32, 33})
+# EMPTY argument list: fn_to_sympy skips the binding altogether when the call passes no argument
+# (`if model_args is not None and len(model_args)`), so the defaulted parameter stays behind as a
+# bare symbol -- recorded finding defaulted-parameters-no-arguments, repaired by
+# fixes/C07-empty-argument-list-strict.diff (harness/c07.py reads which form the tree has)
+EMPTY_CALL = frozenset({36, 37})
+# refused only because the call passes MORE arguments than the callee has positional parameters; the
+# callee takes them as *args and ignores them (a translation dropping the surplus would be faithful)
+SURPLUS_ONLY = frozenset({34, 35})
 BY_ARITY: dict[int, list[int]] = {}
 for _i, _a in enumerate(ARITY):
     if _i in TRANSLATABLE:
         BY_ARITY.setdefault(_a, []).append(_i)
-UNTRANSLATABLE_BY_ARITY = {1: [16, 18], 2: [17]}
+UNTRANSLATABLE_BY_ARITY = {1: [16, 18, 28, 32, 33], 2: [17, 29, 30, 34, 35]}
+UNTRANSLATABLE_COEF_BY_ARITY = {1: [16, 18, 28, 31, 32, 33], 2: [17, 29, 30, 34, 35]}
 
 
 def translates(fid: int) -> bool:
